@@ -514,7 +514,7 @@ fn cases<B: Bk>(tier: Tier) -> Vec<Case> {
     out
 }
 
-fn fam<B: Bk>(run: &mut Run)
+pub fn fam<B: Bk>(run: &mut Run)
 where
     Module<B>: HalAll<B>,
 {
